@@ -538,6 +538,18 @@ func (c *FnCtx) mapStore(st *State, m *Term, mt *types.Map, k, v *Term, site ast
 	val := c.mapVal(st, m, mt)
 	c.heapWrite(st, mapDomName(ks, vs), arraySort(ks, SBool), m, mkStore(dom, k, tTrue))
 	c.heapWrite(st, mapValName(ks, vs), arraySort(ks, vs), m, mkStore(val, k, v))
+	// bridge for E-matching: a read of the updated map is the written value or a read of the map before the update
+	// (a consequence of the definition of mapget; it makes facts stated over the old version applicable)
+	fn := "mapget_" + mangleSort(ks) + "_" + mangleSort(vs)
+	if c.smt.declared[fn] && isLit(st.guard(), "true") {
+		c.quantN++
+		kv := leaf(fmt.Sprintf("mk!%d", c.quantN), ks)
+		nd, nv := c.mapDom(st, m, mt), c.mapVal(st, m, mt)
+		newRead := mk(fn, vs, nd, nv, kv)
+		oldRead := mk(fn, vs, dom, val, kv)
+		st.pc = append(st.pc, mkForall([]Bound{{kv.Op, ks}}, mkEq(newRead, mkIte(mkEq(kv, k), v, oldRead)), []*Term{newRead}))
+		st.pc = append(st.pc, mkForall([]Bound{{kv.Op, ks}}, mkEq(mkSelect(nd, kv), mkOr(mkEq(kv, k), mkSelect(dom, kv))), []*Term{mkSelect(nd, kv)}))
+	}
 }
 
 func (c *FnCtx) evalSliceExpr(st *State, x *ast.SliceExpr) *Term {
